@@ -1,5 +1,244 @@
 import Driver.Common
-/-! Driver for C17 (stub: not built yet). -/
-def main (_args : List String) : IO UInt32 := do
-  IO.eprintln "C17: driver not implemented"
-  return 2
+import CoapVerif.Model.Router
+import CoapVerif.Spec.Router
+/-!
+Driver for C17.  `drv_c17 model` replays operation lines on Model/Router (for `serve`/`match` it prints every
+outcome some map-iteration order can produce, joined by ` || `); `drv_c17 judge` evaluates Spec/Router's judge on
+`operation | what the implementation answered`.  Strings travel as lower-case hex of their UTF-8 bytes (`-` = empty).
+-/
+namespace Driver.C17
+open CoapVerif CoapVerif.Model.Router
+
+def decodeStr (hex : String) : Option Str := do
+  let bs ← parseHex? hex
+  let s ← String.fromUTF8? (ByteArray.mk bs.toArray)
+  pure s.toList
+
+def encodeStr (s : Str) : String := toHex (String.ofList s).toUTF8.toList
+
+def joinWith (sep : String) (xs : List String) : String := sep.intercalate xs
+
+def insertSorted (x : String) : List String → List String
+  | [] => [x]
+  | y :: t => if x ≤ y then x :: y :: t else y :: insertSorted x t
+
+def fmtVars (vs : List (Str × Str)) : String :=
+  if vs.isEmpty then "-" else
+    let enc := vs.map (fun (k, v) => encodeStr k ++ ":" ++ encodeStr v)
+    joinWith "," (enc.foldl (fun acc x => insertSorted x acc) [])
+
+def fmtEv : Ev → String
+  | .enter m => "+" ++ m
+  | .handler h => "=" ++ h
+  | .exit m => "-" ++ m
+
+def fmtFail : Fail → String
+  | .err .nilHandler => "err nilhandler"
+  | .err .unbalanced => "err unbalanced"
+  | .err .missing => "err missing"
+  | .err .regex => "err regex"
+  | .err .notRegistered => "err notregistered"
+  | .panic .slice => "panic slice"
+  | .panic .index => "panic index"
+  | .panic .captureGroups => "panic capture"
+  | .panic .nilFunc => "panic nilfunc"
+  | .panic .handleFuncErr => "panic handlefunc"
+  | .unsupported => "unsupported"
+
+def fmtOutcome : Outcome → String
+  | .nothing => "none"
+  | .fail f => fmtFail f
+  | .invoked h pat rp run =>
+    if run.panics then "panic nilfunc" else
+    let hn := match h with | .named n => n | .nilFunc => "nilf"
+    let p := match pat with | some p => encodeStr p | none => "*"
+    s!"hit {hn} {p} {fmtVars (rp.vars.getD [])} {joinWith "," (run.evs.map fmtEv)} {encodeStr rp.path} {encodeStr rp.pathTemplate}"
+
+def fmtMatch : Except Fail (Option (Str × Route) × RouteParams) → String
+  | .error f => fmtFail f
+  | .ok (none, _) => "nomatch"
+  | .ok (some (p, _), rp) => s!"m {encodeStr p} {fmtVars (rp.vars.getD [])} {encodeStr rp.path} {encodeStr rp.pathTemplate}"
+
+/-- the iteration orders that matter: every entry moved to the front once (plus the stored order) -/
+def orders (z : List (Str × Route)) : List (List (Str × Route)) :=
+  z :: z.map (fun e => e :: z.filter (fun e' => e'.1 ≠ e.1))
+
+def dedup (xs : List String) : List String := xs.foldl (fun acc x => if acc.contains x then acc else acc ++ [x]) []
+
+def parseHandlerOpt (s : String) : Option Handler := if s = "nil" then none else some (.named s)
+
+def modelStep (r : Router) (line : String) : Router × String :=
+  match words line with
+  | ["reset"] => ({}, "ok")
+  | ["route", p, h] =>
+    match decodeStr p with
+    | none => (r, "bad-op")
+    | some p =>
+      match r.handle p (parseHandlerOpt h) with
+      | .ok r' => (r', "ok")
+      | .error f => (r, fmtFail f)
+  | ["routef", p, h] =>
+    match decodeStr p with
+    | none => (r, "bad-op")
+    | some p =>
+      match r.handleFunc p (if h = "nil" then none else some h) with
+      | .ok r' => (r', "ok")
+      | .error f => (r, fmtFail f)
+  | ["unroute", p] =>
+    match decodeStr p with
+    | none => (r, "bad-op")
+    | some p =>
+      match r.handleRemove p with
+      | .ok r' => (r', "ok")
+      | .error f => (r, fmtFail f)
+  | ["default", h] => (r.defaultHandle (parseHandlerOpt h), "ok")
+  | ["defaultf", h] => (r.defaultHandle (some (if h = "nil" then .nilFunc else .named h)), "ok")
+  | ["mw", m] => (r.use m, "ok")
+  | ["serve", p] =>
+    let path : Option (Option Str) := if p = "none" then some none else (decodeStr p).map some
+    match path with
+    | none => (r, "bad-op")
+    | some path =>
+      let k := (r.z.filter (fun e => pathMatch e.2 (filterPath (path.getD [])))).length
+      (r, joinWith " || " (dedup ((orders r.z).map (fun o => fmtOutcome (r.serveCOAP o path)))) ++ s!" ## {k}")
+  | ["match", p] =>
+    match decodeStr p with
+    | none => (r, "bad-op")
+    | some p =>
+      let k := (r.z.filter (fun e => pathMatch e.2 (filterPath p))).length
+      (r, joinWith " || " (dedup ((orders r.z).map (fun o => fmtMatch (matchRoute o p {})))) ++ s!" ## {k}")
+  | _ => (r, "bad-op")
+
+/-! ## judge -/
+open CoapVerif.Spec.Router in
+def parseVars (s : String) : Option (List (Str × Str)) :=
+  if s = "-" then some [] else
+    (s.splitOn ",").mapM (fun kv =>
+      match kv.splitOn ":" with
+      | [k, v] => do
+        let k ← decodeStr k
+        let v ← decodeStr v
+        pure (k, v)
+      | _ => none)
+
+open CoapVerif.Spec.Router in
+def parseSeen (ws : List String) : Option Seen :=
+  match ws with
+  | ["none"] => some .nothing
+  | "panic" :: rest => some (.panic (joinWith " " rest))
+  | "hit" :: h :: p :: vars :: chain :: _ => do
+    let pat ← if p = "*" then some none else (decodeStr p).map some
+    let vs ← parseVars vars
+    pure (.hit h pat vs (chain.splitOn ","))
+  | _ => none
+
+open CoapVerif.Spec.Router in
+def specH (f : Bool) (h : String) : Option H :=
+  if h = "nil" then (if f then some .nilFunc else none) else some (.named h)
+
+open CoapVerif.Spec.Router in
+def judgeStep (st : SpecState) (line : String) : SpecState × String :=
+  match line.splitOn " | " with
+  | [op, obs] =>
+    let ow := words obs
+    match words op with
+    | ["reset"] => ({}, "ok")
+    | [kind, p, h] =>
+      if kind = "route" ∨ kind = "routef" then
+        match decodeStr p with
+        | none => (st, "bad-op")
+        | some p =>
+          let hh := specH (kind = "routef") h
+          let sg := segments (rootIfEmpty p)
+          match ow with
+          | ["ok"] =>
+            match hh, sg with
+            | some hh, .ok segs => (st.register p hh segs, "ok")
+            | none, _ => (st, "violates nil-handler-accepted")
+            | _, .error .unsupported => (st, "unsupported")
+            | _, .error _ => (st, "violates invalid-pattern-accepted")
+          | ["err", _] =>
+            match hh, sg with
+            | none, _ => (st, "ok")
+            | _, .error .unsupported => (st, "unsupported")
+            | _, .error .capture => (st, "violates capture-pattern-refused-with-error")
+            | _, .error _ => if kind = "route" then (st, "ok") else (st, "violates handlefunc-returned-error")
+            | some _, .ok _ => (st, "violates valid-pattern-refused")
+          | "panic" :: _ =>
+            match hh, sg with
+            | _, .error .unsupported => (st, "unsupported")
+            | some _, .error .capture => (st, "ok")          -- documented: capture groups are not accepted
+            | some _, .error _ => if kind = "routef" then (st, "ok") else (st, "violates handle-panics")
+            | _, _ => (st, "violates registration-panics")
+          | _ => (st, "bad-obs")
+      else (st, "bad-op")
+    | ["unroute", p] =>
+      match decodeStr p with
+      | none => (st, "bad-op")
+      | some p =>
+        match ow with
+        | ["ok"] => if st.has p then (st.unregister p, "ok") else (st, "violates removed-unregistered-pattern")
+        | ["err", _] => if st.has p then (st, "violates registered-pattern-not-removed") else (st, "ok")
+        | _ => (st, "violates unroute-" ++ obs)
+    | ["default", h] => ({ st with dflt := specH false h }, "ok")
+    | ["defaultf", h] => ({ st with dflt := specH true h }, "ok")
+    | ["mw", m] => ({ st with mws := st.mws ++ [m] }, "ok")
+    | ["serve", p] =>
+      let path : Option (Option Str) := if p = "none" then some none else (decodeStr p).map some
+      match path, parseSeen ow with
+      | some path, some seen =>
+        match judgeServe st path seen with
+        | none => (st, "ok")
+        | some c => (st, "violates " ++ c)
+      | _, _ => (st, "bad-obs")
+    | ["match", p] =>
+      match decodeStr p, ow with
+      | some path, ["nomatch"] =>
+        let pp := rootIfEmpty path
+        if st.regs.any (fun r => matchesPath r.segs pp) then (st, "violates nomatch-although-a-route-matches") else (st, "ok")
+      | some path, ["m", pat, vars, _, _] =>
+        match decodeStr pat, parseVars vars with
+        | some pat, some vs =>
+          let hn := match st.regs.find? (fun r => r.pattern = pat) with
+            | some ⟨_, .named n, _⟩ => n
+            | _ => "?"
+          let seen := Seen.hit hn (some pat) vs (expectedChain st.mws hn)
+          match st.regs.find? (fun r => r.pattern = pat) with
+          | some ⟨_, .nilFunc, _⟩ =>
+            -- handler identity is irrelevant for Match: judge with a named stand-in
+            let st' := { st with regs := st.regs.map (fun r => if r.pattern = pat then { r with h := .named "?" } else r) }
+            match judgeServe st' (some path) (Seen.hit "?" (some pat) vs (expectedChain st.mws "?")) with
+            | none => (st, "ok")
+            | some c => (st, "violates " ++ c)
+          | _ =>
+            match judgeServe st (some path) seen with
+            | none => (st, "ok")
+            | some c => (st, "violates " ++ c)
+        | _, _ => (st, "bad-obs")
+      | some _, "panic" :: _ => (st, "violates match-panics")
+      | _, _ => (st, "bad-obs")
+    | _ => (st, "bad-op")
+  | _ => (st, "bad-line")
+
+end Driver.C17
+
+open Driver Driver.C17 in
+def main (args : List String) : IO UInt32 := do
+  let stdin ← IO.getStdin
+  let stdout ← IO.getStdout
+  match args with
+  | ["model"] =>
+    let _ ← foldLines stdin ({} : CoapVerif.Model.Router.Router) (fun r line => do
+      let (r', out) := modelStep r line
+      stdout.putStrLn out
+      pure r')
+    return 0
+  | ["judge"] =>
+    let _ ← foldLines stdin ({} : CoapVerif.Spec.Router.SpecState) (fun st line => do
+      let (st', out) := judgeStep st line
+      stdout.putStrLn out
+      pure st')
+    return 0
+  | _ =>
+    IO.eprintln "usage: drv_c17 model|judge"
+    return 2
